@@ -6,7 +6,7 @@ Tie:    harness/simdrv.c <-> Drivers/SimMain.lean on generated scenarios (profil
 """
 import simcheck
 
-PROFILES = ['record', 'record2', 'mixed']
+PROFILES = ['record', 'record2', 'mixed', 'longrec']
 
 
 def run(chk):
